@@ -103,12 +103,16 @@ func lastErrLine(s string) string {
 }
 
 func patternsOf(files map[string]string) []string {
+	if _, ok := files["a/a.go"]; ok {
+		return []string{"./a", "./p"}
+	}
 	return []string{"./p"}
 }
 
 var gofmtUnclean int
 
 type built struct {
+	patterns []string
 	files    map[string]string
 	calls    []string
 	features map[string]bool
@@ -231,6 +235,19 @@ func ConcDo(f0 func() (%[1]s, error), f1 func() (int, error), f2 func() (%[1]s, 
 		for _, f := range dc.Type.Features() {
 			b.features[f] = true
 		}
+	}
+	if len(env.Ext) > 0 && rapid.IntRange(0, 3).Draw(t, "sharedfunc") == 0 {
+		// a second package of the same invocation (it sorts before p) derives over the same imported function as p:
+		// both see one go/types object for it, whatever one package's generators do to it the other must not notice
+		x := env.Ext[0]
+		p.Extra[x.Dir+"/fn.go"] = "package " + x.Name + "\n\n// Fn is used by derive calls of two packages.\nfunc Fn(x int, y string, z bool) (int, error) {\n\tif z {\n\t\treturn x, nil\n\t}\n\treturn len(y), nil\n}\n"
+		p.Extra["a/a.go"] = "package a\n\nimport xfn \"" + x.ImportPath() + "\"\n\nvar Flipped = deriveFlip(xfn.Fn)\n\nvar Curried = deriveCurry(xfn.Fn)\n"
+		al := p.Alias[x.Dir]
+		p.Import("ext:" + x.Dir)
+		p.Add("var SharedCurried = deriveCurryShared(%[1]s.Fn)\n\nvar SharedApplied = deriveApplyShared(%[1]s.Fn, true)\n\nvar SharedFlipped = deriveFlipShared(%[1]s.Fn)\n\nfunc SharedUse() (int, error) {\n\tif _, err := SharedFlipped(\"s\", 1, false); err != nil {\n\t\treturn 0, err\n\t}\n\tif _, err := SharedApplied(1, \"s\"); err != nil {\n\t\treturn 0, err\n\t}\n\treturn SharedCurried(1)(\"s\", true)\n}\n", al)
+		b.calls = append(b.calls, "shared-function:a+p")
+		b.features["shared-function"] = true
+		b.patterns = []string{"./a", "./p"}
 	}
 	b.files = p.Files()
 	b.nt = b.features["nested"] || b.features["ext-private"] || b.features["map"] || b.features["plugin:unique"] ||
@@ -386,7 +403,7 @@ func TestProp(t *testing.T) {
 				files[k] = v
 			}
 			_ = derived
-			c.Fail(rt, sig, msg+"\ncalls: "+strings.Join(b.calls, "; "), files, map[string]any{"patterns": []string{"./p"}})
+			c.Fail(rt, sig, msg+"\ncalls: "+strings.Join(b.calls, "; "), files, map[string]any{"patterns": patternsOf(b.files)})
 		}
 	})
 }
@@ -417,8 +434,9 @@ func TestReplay(t *testing.T) {
 	cd := c.CaseDir()
 	defer os.RemoveAll(cd)
 	delete(files, "p/"+gorun.DerivedFile)
+	delete(files, "a/"+gorun.DerivedFile)
 	gorun.WriteFiles(cd, files)
-	sig, msg := Judge(cd, []string{"./p"})
+	sig, msg := Judge(cd, patternsOf(files))
 	if sig != nil {
 		t.Fatalf("still fails: %v\n%s", sig, msg)
 	}
